@@ -62,6 +62,7 @@ type Gen struct {
 	MaxDepth   int
 	AllowOdd   bool // func/chan/interface/uintptr/unsafe.Pointer leaves
 	AllowArray bool
+	NoEmptyStruct bool // zero-size types make addresses meaningless (Go aliases them)
 }
 
 func New(r *rng.R) *Gen {
@@ -121,7 +122,7 @@ func (g *Gen) keyType() T {
 
 func (g *Gen) structType(depth int) Struct {
 	n := g.R.Intn(4)
-	if g.R.Chance(85) && n == 0 {
+	if (g.NoEmptyStruct || g.R.Chance(85)) && n == 0 {
 		n = 1
 	}
 	s := Struct{}
